@@ -44,7 +44,8 @@ def r_div(chk, units):
             if d["k"] == "rec" and d.get("dependent") and C.in_lib(d.get("file", "")):
                 pat_fields[(d["file"], d["line"])] = {f["name"]: f["type"] for f in d.get("fields", ())}
         for f in u.funcs:
-            if f.dependent or not f.in_lib() or "/operators/" not in f.decl["pfile"]:
+            if f.dependent or not f.in_lib() or not ("/operators/" in f.decl["pfile"] or
+                                                      any(f.decl["pfile"].startswith(x) for x in C.LIB_EXTRA)):
                 continue
             pp = pat_params.get(f.pkey)
             scalar_ids = {}
